@@ -53,11 +53,11 @@ func cyclic(n int, adj []uint) bool {
 
 // script alphabet
 type scriptT struct {
-	name               string
-	createFail         int
-	fail, limit        int
-	retry, unmet       bool
-	canFail, canSkip   bool
+	name             string
+	createFail       int
+	fail, limit      int
+	retry, unmet     bool
+	canFail, canSkip bool
 }
 
 var scriptsFull = []scriptT{
@@ -203,15 +203,15 @@ func sharp() []*Config {
 	unmet := func(s StepCfg) StepCfg { s.Unmet = true; return s }
 	cos := func(s StepCfg) StepCfg { s.CoS = true; return s }
 	return []*Config{
-		{Steps: []StepCfg{retrying(st(a), 1, 1, 0), st(b, a)}},                          // retry then dependent, no interval
-		{Steps: []StepCfg{retrying(st(a), 1, 1, 1000), st(b, a)}},                       // … with an interval
-		{Steps: []StepCfg{st(a), st(b), st(c, a, b)}},                                   // two parallel steps joining
-		{Steps: []StepCfg{retrying(st(a), 1, 1, 1000), st(b)}, MaxActive: 1},            // limit 1, one of two parallel steps retries
-		{Steps: []StepCfg{cof(fail(st(a))), st(b, a)}},                                  // continueOn.failure
-		{Steps: []StepCfg{fail(st(a)), st(b, a), st(c)}},                                // failure containment next to an independent step
-		{Steps: []StepCfg{cos(unmet(st(a))), st(b, a)}},                                 // continueOn.skipped
-		{Steps: []StepCfg{retrying(st(a), 2, 1, 0), st(b, a)}},                          // retries exhausted
-		{Steps: []StepCfg{st(a), st(b, a), st(c, b)}, DelayMs: 1000},                    // chain with launch delay
+		{Steps: []StepCfg{retrying(st(a), 1, 1, 0), st(b, a)}},               // retry then dependent, no interval
+		{Steps: []StepCfg{retrying(st(a), 1, 1, 1000), st(b, a)}},            // … with an interval
+		{Steps: []StepCfg{st(a), st(b), st(c, a, b)}},                        // two parallel steps joining
+		{Steps: []StepCfg{retrying(st(a), 1, 1, 1000), st(b)}, MaxActive: 1}, // limit 1, one of two parallel steps retries
+		{Steps: []StepCfg{cof(fail(st(a))), st(b, a)}},                       // continueOn.failure
+		{Steps: []StepCfg{fail(st(a)), st(b, a), st(c)}},                     // failure containment next to an independent step
+		{Steps: []StepCfg{cos(unmet(st(a))), st(b, a)}},                      // continueOn.skipped
+		{Steps: []StepCfg{retrying(st(a), 2, 1, 0), st(b, a)}},               // retries exhausted
+		{Steps: []StepCfg{st(a), st(b, a), st(c, b)}, DelayMs: 1000},         // chain with launch delay
 		{Steps: []StepCfg{retrying(st(a), 1, 2, 0), retrying(st(b), 1, 1, 0)}, MaxActive: 2},
 		{Steps: []StepCfg{cof(createFailing(retrying(st(a), 0, 1, 1000), 1)), st(b, a)}}, // first attempt fails before a process exists, continueOn.failure
 	}
